@@ -154,7 +154,7 @@ class CallMixin:
         if name in LIBC_PASS:
             self.helpers.add(LIBC_PASS[name])
             return f'{LIBC_PASS[name]}({", ".join(self.ex(a) for a in args)})'
-        if name in ('fill', 'copy', 'equal', 'fill_n', 'copy_n', 'reverse', 'all_of', 'any_of', 'find', 'count', 'remove_if', 'find_if', 'sort'):
+        if name in ('fill', 'copy', 'equal', 'fill_n', 'copy_n', 'reverse', 'all_of', 'any_of', 'find', 'count', 'remove_if', 'find_if', 'sort', 'max_element', 'min_element'):
             return self.std_algorithm(name, n, args)
         if name in ('move', 'forward') and len(args) == 1:
             return self.ex(args[0])
@@ -266,6 +266,22 @@ class CallMixin:
             self.pre.append(f'{self.ctype(a0t)} {r} = {last};')
             self.pre.append(f'for ({self.ctype(a0t)} {it} = {first}; {it} != {last}; ++{it}) {{ if ({call}) {{ {r} = {it}; break; }} }}')
             return r
+        if name in ('max_element', 'min_element') and len(args) == 3 and self.is_lambda_arg(args[2]):
+            # std::max_element / std::min_element with a comparator lambda: the library loop (first extreme element)
+            lam = self.lambda_fn(self.strip_to_lambda(args[2]))
+            if self.cond_depth:
+                raise LoweringError(f'std::{name} in a conditional operand')
+            first = self.hoist(a0t, self.ex(args[0]))
+            last = self.hoist(a0t, self.ex(args[1]))
+            it, best = self.tmp('__it'), self.tmp('__best')
+            def arg(k, e):
+                return e if lam['ptypes'][k].is_ref() else '*' + e
+            a, b = (best, it) if name == 'max_element' else (it, best)
+            call = f'{lam["cname"]}({", ".join(lam["captures"] + [arg(0, a), arg(1, b)])})'
+            self.cur['loops'] += 1
+            self.pre.append(f'{self.ctype(a0t)} {best} = {first};')
+            self.pre.append(f'for ({self.ctype(a0t)} {it} = {first}; {it} != {last}; ++{it}) {{ if ({it} != {best} && {call}) {best} = {it}; }}')
+            return best
         if name == 'sort' and len(args) == 3 and self.is_lambda_arg(args[2]):
             # std::sort with a comparator lambda: modelled by insertion sort with that comparator (a sorted permutation of the range;
             # std::sort is not stable either, and nothing under contract depends on the order of equivalent elements)
